@@ -1,7 +1,7 @@
 """C04 — what the engine delivers depends on the bytes, not on how they are cut into reads."""
 import z3
 from ..values import *
-from ..models import conj, val_eq, some
+from ..models import conj, val_eq, some, ok, err
 from .common import *
 from .d_c07 import greeting_v3, ready_frame, SIG, _frames, _flag
 
@@ -229,3 +229,122 @@ def actor_handshake_output(h):
 def replay_actor_handshake_output(model, params, role):
     return "actor_early_data 0\n", (lambda out: "recv=Err(Timeout)" in out), \
         "public API: PULL socket on TCP, raw peer writes greeting+READY+data in one write; expecting the data never to be received"
+
+
+# ------------------------------------------------------------------------------------------------
+# reader + engine: what the session's read cycle hands to the engine must not depend on where the reads fall
+MP = "sessionx::message_processor::ZmqMessageProcessor"
+
+
+def read_cycles(h):
+    """ZmqMessageProcessor::read_and_process (the tokio session's read cycle: one awaited read, then a greedy
+    drain with try_read_chunk, then ZmtpEngine::on_network_bytes) driven over a scripted byte stream that ends
+    with EOF: the peer's data frames are split over the awaited read and the greedy chunks at positions chosen by
+    the exploration; EOF may be seen by the greedy drain or by the next awaited read."""
+    from .d_c09 import Fut
+    from ..models import _deref
+    srv = h.choose(2, "is_server") == 1
+    eng = mk_engine(h, srv, mk_config(h, socket_type_name=string("PULL")))
+    start(h, eng)
+    feed(h, eng, greeting_v3(b"NULL", 0 if srv else 1) + ready_frame(b"PUSH"))
+    h.check(phase(h, eng) == "Data", "c04.reader.setup-data-phase")
+    nmsg = 1 + h.choose(2, "messages")
+    payload = [h.byte(f"p{i}") for i in range(nmsg)]
+    stream = []
+    for i in range(nmsg):
+        stream += [0x00, 0x02, 0x6D, payload[i]]
+    pos = {"i": 0, "eof_seen": False}
+    cuts = h.params.get("max_chunks", 3)
+    def take(limit):
+        """next piece of the stream: 1..remaining bytes (choice), at most `limit`"""
+        rem = len(stream) - pos["i"]
+        if h.params.get("all_piece_sizes"):
+            n = 1 + h.choose(min(rem, limit), f"piece@{pos['i']}")
+        else:
+            # one byte, up to the end of the current frame, or everything that is left
+            opts = sorted({1, min(rem, 4 - pos["i"] % 4), rem})
+            n = opts[h.choose(len(opts), f"piece@{pos['i']}")]
+        out = stream[pos["i"]:pos["i"] + n]
+        pos["i"] += n
+        return out
+    def read_buf(it, args, dty, func):
+        return Agg("{future}", ["read_buf", args[1]])
+    def try_read_chunk(it, args, dty, func):
+        # greedy drain: more bytes, "would block", or (once everything was read) end of stream
+        from ..models import err as _err
+        rem = len(stream) - pos["i"]
+        if rem > 0:
+            if h.choose(2, f"greedy@{pos['i']}") == 0:
+                return _err(Agg("std::io::Error", ["WouldBlock"]))
+            piece = take(rem)
+            dst = args[1]
+            for k, b in enumerate(piece):
+                dst.set(k, b)
+            return ok(len(piece))
+        if h.choose(2, "eof_in_greedy") == 1:
+            pos["eof_seen"] = True
+            return ok(0)
+        return _err(Agg("std::io::Error", ["WouldBlock"]))
+    h.it.hooks["tokio::io::AsyncReadExt::read_buf"] = read_buf
+    def extern(it, plain, args, dty, func):
+        if plain.endswith("AsyncReadExt>::read_buf") or plain.startswith("tokio::io::AsyncReadExt::read_buf"):
+            return read_buf(it, args, dty, func)
+        if plain.endswith("ZmtpReadHalf>::try_read_chunk") or plain.endswith("::try_read_chunk"):
+            return try_read_chunk(it, args, dty, func)
+        if plain.endswith("Future>::poll"):
+            fut = _deref(args[0])
+            if isinstance(fut, Agg) and fut.ty == "{future}" and fut.f[0] == "read_buf":
+                buf = fut.f[1]
+                while isinstance(buf, Ref) and not isinstance(buf.load(), Seq):
+                    buf = buf.load()
+                rem = len(stream) - pos["i"]
+                if rem == 0:
+                    pos["eof_seen"] = True
+                    return Enum("std::task::Poll", 0, "Ready", [ok(0)])
+                piece = take(rem)
+                buf.load().f.extend(piece)
+                return Enum("std::task::Poll", 0, "Ready", [ok(len(piece))])
+            return NotImplemented
+        if plain.endswith("IntoFuture>::into_future") or plain.startswith("std::pin::Pin::"):
+            return args[0]
+        if plain == "std::io::Error::kind":
+            return Agg("std::io::ErrorKind::WouldBlock", [])      # the only error kind the scripted reader produces
+        return NotImplemented
+    h.it.extern = extern
+    h.panic_role = "c04.reader"
+    mp = Ref(Cell(Agg(MP, []), "mp"), ())
+    reader = Ref(Cell(Agg("{reader}", []), "reader"), ())
+    delivered = []
+    closed = False
+    for cycle in range(len(stream) + 2):        # at worst one byte per cycle, then the cycle that sees the end of the stream
+        f = Fut(h, MP, "read_and_process", [mp, reader, eng])
+        r = f.poll()
+        h.check(r is not None, "c04.reader.cycle-did-not-complete")
+        if r is None:
+            return
+        if r.idx == 1:
+            closed = True
+            break
+        for a in app_actions(r.f[0]):
+            if a.vname == "DeliverMessage":
+                delivered.append(a)
+    h.check(closed, "c04.reader.end-of-stream-not-reported")
+    h.check(pos["i"] == len(stream), "c04.reader.setup-stream-consumed")
+    got = []
+    for a in delivered:
+        for m in _frames(a.f[0]):
+            d = m.f[0]
+            got.append(list(d.f[0].f) if d.idx == 1 else [])
+    ok_ = len(got) == nmsg and conj([bv(g[1], 8) == payload[i] for i, g in enumerate(got) if len(g) == 2]) if len(got) == nmsg and all(len(g) == 2 for g in got) else False
+    h.check(ok_, "c04.reader.bytes-read-before-end-of-stream-never-reached-the-engine",
+            f"peer wrote {nmsg} complete message(s) and closed; {len(got)} delivered: the read cycle that saw the end of the stream "
+            f"in its greedy drain returned ConnectionClosed without handing the bytes it had already read to the engine")
+    h.cover("c04.reader.eof-seen-by-greedy-drain", pos["eof_seen"] and closed)
+    h.cover("c04.reader.all-delivered", ok_ is not False)
+
+
+def replay_read_cycles(model, params, role):
+    ch = dict(map(tuple, model.get("_choices", [])))
+    n = 1 + ch.get("messages", 0)
+    return f"last_message_then_close {n}\n", (lambda out: "LOST" in out), \
+        f"raw PUSH peer writes {n} message(s) and closes at once (data and FIN reach the reader together); expecting the PULL socket not to deliver them"
